@@ -84,7 +84,7 @@ class WireC09(L.WirePart):
             fam = self.fams[i % len(self.fams)]
             hs.append(L.gen_history(rng, tier, fam, ser_ops))
         if "theta" in self.fams:
-            for i in range(3 if tier == "quick" else 12):
+            for i in range(4 if tier == "quick" else 12):
                 hs.append(width_history(rng, tier, ser_ops))
         return hs
 
@@ -103,8 +103,14 @@ class WireC09(L.WirePart):
                     bad.append(("%s/bad-observation" % self.name, o[:120], i))
                     continue
                 if d["status"] != "ok":
-                    for chk in d["status"].replace("FAIL ", "").split(","):
-                        bad.append(("%s/%s" % (d["kind"], chk), "image %s: %s" % (d["hex"][:80], d["status"]), i))
+                    # one finding per image: the FIRST failing check names it (the later ones are usually its consequences);
+                    # compressed images carry their entry width in the key (the 63 block routines are separate code)
+                    chk = d["status"].replace("FAIL ", "").split(",")[0]
+                    fam = d["kind"]
+                    if d["kind"].startswith("theta") and len(d["hex"]) >= 8:
+                        sv = int(d["hex"][2:4], 16)
+                        fam = "theta_v%d" % sv + ("/eb%d" % int(d["hex"][6:8], 16) if sv == 4 else "")
+                    bad.append(("%s/%s" % (fam, chk), "image %s: %s" % (d["hex"][:80], d["status"]), i))
                 c = d["content"].split()
                 # ordered form is sorted by hash; single/empty is ordered
                 if c[0] == "T" and c[2] == "1":
@@ -117,19 +123,19 @@ class WireC09(L.WirePart):
 class ThetaPart(WireC09):
     name = "theta"
     fams = ("theta",)
-    nhist = (14, 150)
+    nhist = (24, 150)
 
 
 class TuplePart(WireC09):
     name = "tuple"
     fams = ("tf64", "ti64", "tstr", "tcst")
-    nhist = (16, 160)
+    nhist = (24, 160)
 
 
 class AodPart(WireC09):
     name = "aod"
     fams = ("aod",)
-    nhist = (8, 80)
+    nhist = (12, 80)
 
 
 class BitPackPart(Part):
